@@ -675,6 +675,10 @@ class AttackGraph():
         for parent in node.parents:
             parent.children.remove(node)
         self.nodes.remove(node)
+        # The removed node is detached on its side too, if it is added again
+        # later it must not come back with links its neighbours do not have
+        node.children = []
+        node.parents = []
 
         # Attackers must not keep referring to a node that is gone
         for attacker in list(node.compromised_by):
